@@ -17,7 +17,8 @@ Traces == ndJsonDeserialize(IOEnv.TRACE_FILE)
 VARIABLE tid
 T == Traces[tid]
 TIn(x) == [tf |-> x.tf, dt0 |-> x.dt0, pfreq |-> x.pfreq, outs |-> ToSet(x.outs),
-           maxsteps |-> x.maxsteps, t0 |-> x.t0, c0 |-> x.c0]
+           maxsteps |-> x.maxsteps, t0 |-> x.t0, c0 |-> x.c0,
+           norec |-> x.norec]
 
 Verdict(x) ==
     LET f == Failed(x.log, TIn(x), x.e)
